@@ -27,9 +27,26 @@ type c12Case struct {
 	Spin   int       `json:"spin"`
 	Conns  []c12Conn `json:"conns"`
 	HoldMs int       `json:"hold_ms"`
+	// concurrent-start: Stop is called DelayUs microseconds (busy wait) after
+	// Run was started; the case sweeps Rounds delays DelayUs, DelayUs+StepUs, ...
+	DelayUs int `json:"delay_us,omitempty"`
+	StepUs  int `json:"step_us,omitempty"`
+	Rounds  int `json:"rounds,omitempty"`
 }
 
 func c12Exec(c c12Case, st *lab.Stats) *lab.Fail {
+	if c.Order == "concurrent-start" && c.Rounds > 1 {
+		for i := 0; i < c.Rounds; i++ {
+			one := c
+			one.Rounds = 1
+			one.DelayUs = c.DelayUs + i*c.StepUs
+			if f := c12Exec(one, st); f != nil {
+				f.Message = fmt.Sprintf("round %d (Stop %d us after Run was started): %s", i, one.DelayUs, f.Message)
+				return f
+			}
+		}
+		return nil
+	}
 	port, err := lab.FreeLocalPort()
 	if err != nil {
 		st.Inconclusive(err.Error())
@@ -66,7 +83,7 @@ func c12Exec(c c12Case, st *lab.Stats) *lab.Fail {
 			case "handler-gated":
 				_ = respondOK(w, r) // answer first: the client may leave, the handler is still running
 				g.wait(20 * time.Second)
-			case "handler-slow":
+			case "handler-slow", "pipelined-slow":
 				_ = respondOK(w, r)
 				time.Sleep(time.Duration(c.HoldMs) * time.Millisecond)
 			default:
@@ -176,6 +193,8 @@ func c12Exec(c c12Case, st *lab.Stats) *lab.Fail {
 		for i := 0; i < c.Spin; i++ {
 			runtime.Gosched()
 		}
+		for t0 := time.Now(); time.Since(t0) < time.Duration(c.DelayUs)*time.Microsecond; {
+		}
 		ok, err := timedStop()
 		if !ok {
 			st.Inconclusive("Stop concurrent with Run's start did not return")
@@ -207,6 +226,13 @@ func c12Exec(c c12Case, st *lab.Stats) *lab.Fail {
 		time.Sleep(50 * time.Microsecond)
 	}
 	clients := make([]*lab.Client, len(c.Conns))
+	defer func() {
+		for _, cl := range clients {
+			if cl != nil {
+				cl.Close()
+			}
+		}
+	}()
 	for tag, cs := range c.Conns {
 		cl, err := lab.Dial(addr)
 		if err != nil {
@@ -219,6 +245,17 @@ func c12Exec(c c12Case, st *lab.Stats) *lab.Fail {
 		if _, err := cl.Next(10 * time.Second); err != nil {
 			st.Inconclusive("hello unanswered: " + err.Error())
 			return nil
+		}
+		if cs.State == "pipelined-slow" {
+			// requests and the Unbind leave in one write and nobody waits for the
+			// answers: the connection ends while its handlers have only just been dispatched
+			var buf []byte
+			for j := 0; j < cs.K; j++ {
+				buf = append(buf, simpleReq("search", base+10+int64(j)).Bytes()...)
+			}
+			buf = append(buf, simpleReq("unbind", base+99).Bytes()...)
+			_ = cl.Send(buf)
+			continue
 		}
 		if cs.State == "handler-gated" || cs.State == "handler-slow" {
 			for j := 0; j < cs.K; j++ {
@@ -234,6 +271,9 @@ func c12Exec(c c12Case, st *lab.Stats) *lab.Fail {
 	}
 	// every client leaves no later than Stop
 	for tag, cs := range c.Conns {
+		if cs.State == "pipelined-slow" {
+			continue // its Unbind is already on the wire; the socket stays open until the server closes it
+		}
 		if cs.How == "unbind" {
 			_ = clients[tag].Send(simpleReq("unbind", int64(tag)*tagStride+99).Bytes())
 		}
@@ -289,18 +329,23 @@ func c12Exec(c c12Case, st *lab.Stats) *lab.Fail {
 func TestC12(t *testing.T) {
 	lab.Prop[c12Case]{
 		ID: "C12", Part: "stop",
-		Rule: "rapid: order of Stop relative to Run in {before Run, concurrently with Run's start after 0..200 scheduler yields, after Ready, twice in sequence, twice concurrently} x 0..6 connections whose state at Stop time is handler held on a gate / handler sleeping / client just closed / OnClose callback held; every client has closed (FIN or Unbind) before Stop is called and the gate is opened by a timer 20..250 ms after Stop was called, never by Stop's return; oracle sampled at the instant Stop returns: in-flight handler counter == 0 and completed OnClose callbacks == accepted connections; after Run returned (must be nil): dial refused and the port can be bound again; second Stop harmless; non-trivial = >= 1 handler/OnClose still held when Stop was called, or Stop overlapped/preceded Run; distinct by hash",
+		Rule: "rapid: order of Stop relative to Run in {before Run, concurrently with Run's start (a sweep of 8..24 busy-wait delays of 0..1 ms after Run was started, plus 0..200 scheduler yields), after Ready, twice in sequence, twice concurrently} x 0..6 connections whose state at Stop time is handler held on a gate / handler sleeping / client just closed / OnClose callback held / requests + Unbind pipelined in one write with slow handlers (nobody waits for the answers); every client has closed (FIN or Unbind) before Stop is called and the gate is opened by a timer 20..250 ms after Stop was called, never by Stop's return; oracle sampled at the instant Stop returns: in-flight handler counter == 0 and completed OnClose callbacks == accepted connections; after Run returned (must be nil): dial refused and the port can be bound again; second Stop harmless; non-trivial = >= 1 handler/OnClose still held when Stop was called, or Stop overlapped/preceded Run; distinct by hash",
 		Gen: func(t *rapid.T) c12Case {
 			c := c12Case{
 				Order:  rapid.SampledFrom([]string{"after-ready", "after-ready", "after-ready", "before-run", "concurrent-start", "concurrent-start", "twice-seq", "twice-concurrent"}).Draw(t, "order"),
 				Spin:   rapid.SampledFrom([]int{0, 1, 2, 5, 10, 50, 200}).Draw(t, "spin"),
 				HoldMs: rapid.SampledFrom([]int{20, 60, 120, 250}).Draw(t, "hold"),
 			}
+			if c.Order == "concurrent-start" {
+				c.DelayUs = rapid.SampledFrom([]int{0, 0, 5, 20, 50, 100}).Draw(t, "delayus")
+				c.StepUs = rapid.SampledFrom([]int{1, 3, 7, 15, 40}).Draw(t, "stepus")
+				c.Rounds = rapid.IntRange(8, 24).Draw(t, "rounds")
+			}
 			if c.Order != "before-run" && c.Order != "concurrent-start" {
 				n := rapid.IntRange(0, 6).Draw(t, "nconns")
 				for i := 0; i < n; i++ {
 					c.Conns = append(c.Conns, c12Conn{
-						State: rapid.SampledFrom([]string{"handler-gated", "handler-gated", "handler-slow", "just-closed", "onclose-held"}).Draw(t, "state"),
+						State: rapid.SampledFrom([]string{"handler-gated", "handler-gated", "handler-slow", "just-closed", "onclose-held", "pipelined-slow", "pipelined-slow"}).Draw(t, "state"),
 						How:   rapid.SampledFrom([]string{"fin", "unbind"}).Draw(t, "how"),
 						K:     rapid.IntRange(1, 3).Draw(t, "k"),
 					})
